@@ -66,6 +66,12 @@ def lifter_trees(w):
         for op in ('<<<c_rez', '<<<c_cf', '>>>c_rez', '>>>c_cf'):
             out.append(g.OP(op, a, g.SL(b, 0, 8), g.ID('cf1', 1)))
             out.append(g.OP(op, a, g.I(8, 3), g.I(1, 1)))
+    if w in (8, 16, 32):
+        # rotate through carry: every count 0..31 (masked to 5 bits, then reduced mod width+1) plus unmasked ones, both carries
+        for op in ('<<<c_rez', '<<<c_cf', '>>>c_rez', '>>>c_cf'):
+            for c in list(range(32)) + [0x20, 0x29, 0x80, 0xff]:
+                for cf in (0, 1):
+                    out.append(g.OP(op, a, g.I(8, c), g.I(1, cf)))
     if w == 16:
         for op in ('umul16_lo', 'umul16_hi', 'imul16_lo', 'imul16_hi'):
             out.append(g.OP(op, a, b))
